@@ -835,8 +835,8 @@ def _suffix_ok(f, good):
             if not is_place(pay):
                 continue
             pty = f.local_ty(pay["l"]) or ""
-            if not pty.startswith("("):
-                continue
+            if not pty.startswith("(") or pty == "()" or not re.search(r", &(?:'\w+ )?\[", pty):
+                continue        # not a `(X, &[T])` payload: an Ok of some other type (a helper analysed inlined, a nested call)
             d = f.single_def(pay["l"])
             if d is None or d[2] != "assign" or d[3]["k"] != "agg" or not d[3].get("tup") or len(d[3]["ops"]) != 2:
                 return False, "Ok payload at line %s is not built in place" % f.line_of(bi, si)
@@ -971,8 +971,18 @@ def _at_least_one(f, o, depth):
         if len(pr) != 1 or not (isinstance(pr[0], dict) and pr[0].get("tup") and "i" in pr[0]):
             return False
         i = pr[0]["i"]
-        return bool(ds) and all(d[2] == "assign" and d[3]["k"] == "agg" and d[3].get("tup") and len(d[3]["ops"]) > i
-                                and _at_least_one(f, d[3]["ops"][i], depth + 1) for d in ds)
+
+        def one(d):
+            if d[2] != "assign":
+                return False
+            rv = d[3]
+            if rv["k"] == "agg" and rv.get("tup") and len(rv["ops"]) > i:
+                return _at_least_one(f, rv["ops"][i], depth + 1)
+            if rv["k"] == "use" and is_place(rv["a"]) and not proj(rv["a"]):
+                # the tuple was moved (e.g. out of the return local of an inlined helper)
+                return _at_least_one(f, {"l": rv["a"]["l"], "pr": pr}, depth + 1)
+            return False
+        return bool(ds) and all(one(d) for d in ds)
     return bool(ds) and all(d[2] == "assign" and d[3]["k"] == "use" and _at_least_one(f, d[3]["a"], depth + 1) for d in ds)
 
 
